@@ -37,6 +37,8 @@ impl<R: Round, const B: Word> FBig<R, B> {
 //@@ FN float/ebounds/fbig_repr.rs
 //@@ FN float/ebounds/fbig_ulp.rs
 }
+//@@ FN float/ebounds/is_power_of_base.rs
+//@@ FN float/ebounds/ulp_towards_zero.rs
 //@@ FN float/ebounds/halfeven.rs
 } // verus!
 fn main() {}
